@@ -148,14 +148,19 @@ def run_row(row):
                 continue
             zero = " " if name == "str" else 0
             one = "a" if name == "str" else 1
-            seps = {0: [("None", None)], 1: [("value", zero)],
-                    2: [("set", {zero, one}), ("list", [zero, one]), ("frozenset", frozenset([zero, one])), ("tuple", (zero, one))],
-                    3: [("callable", (lambda x, z=zero: x == z))]}[sep]
-            for sname, sv in seps:
-                chk("split/%s/sep=%s" % (name, sname), lambda: it.split(mk(), sv, msa))
-                chk("split_iter/%s/sep=%s" % (name, sname), lambda: list(it.split_iter(mk(), sv, msa)))
+            # every call gets its own separator object (some forms can be walked only once)
+            seps = {0: [("None", lambda: None)], 1: [("value", lambda: zero)],
+                    2: [("set", lambda: {zero, one}), ("list", lambda: [zero, one]), ("frozenset", lambda: frozenset([zero, one])),
+                        ("tuple", lambda: (zero, one)), ("generator", lambda: (x_ for x_ in [zero, one])),
+                        ("iterator", lambda: iter([one, zero])), ("map", lambda: map(lambda x_: x_, (zero, one))),
+                        ("dict-keys", lambda: {one: 0, zero: 0}.keys())],
+                    3: [("callable", lambda: (lambda x, z=zero: x == z))]}[sep]
+            for sname, mksep in seps:
+                chk("split/%s/sep=%s" % (name, sname), lambda: it.split(mk(), mksep(), msa))
+                chk("split_iter/%s/sep=%s" % (name, sname), lambda: list(it.split_iter(mk(), mksep(), msa)))
+                chk("split_iter(keywords)/%s/sep=%s" % (name, sname), lambda: list(it.split_iter(mk(), sep=mksep(), maxsplit=msa)))
                 if ms == -1:
-                    chk("split(no maxsplit)/%s/sep=%s" % (name, sname), lambda: it.split(mk(), sv))
+                    chk("split(no maxsplit)/%s/sep=%s" % (name, sname), lambda: it.split(mk(), mksep()))
         if sep == 0:
             # only None separates: other falsy elements (0, '', False, ()) standing where the model has 2 are kept
             for fi, fv in enumerate(FALSY):
